@@ -12,11 +12,12 @@ SIZE = {"poset": 3, "semilattice": 2, "pend": 2, "diag": 2}
 def make_plan(ths, tier, rnd):
     plan = modelcheck.Plan()
     thorough = tier == "thorough"
-    for theory, (sig, stages) in ths.items():
+    for theory, (sig, stages) in modelcheck.select(ths, PROP, tier):
         api = histories.api_of(sig, modelcheck.module_path(theory))
         n = SIZE.get(theory, 2)
         for _ in range(200 if thorough else 40):
             plan.add(theory, histories.random_history(sig, api, rnd, rnd.randint(3, 12), n, p_until=0.05))
+    modelcheck.add_generated_programs(plan, rnd, 60 if thorough else 4, 12 if thorough else 8, PROP)
     return plan
 
 
